@@ -437,7 +437,7 @@ func (t *UpdateTran) Delete(th *core.Thread, table string, off uint64) {
 	for i := range ts.Indexes {
 		is := ts.Indexes[i].Ixspec
 		keys[i] = is.Key(rec)
-		t.fkeyDeleteBlock(ts, i, keys[i])
+		t.fkeyDeleteBlock(ts, i, keys[i], schema.CascadeDeletes)
 	}
 	t.ck(t.db.ck.Delete(t.ct, table, off, keys))
 	func() {
@@ -465,7 +465,10 @@ func (t *UpdateTran) Delete(th *core.Thread, table string, off uint64) {
 	t.db.CallTrigger(th, t, table, rec, "")
 }
 
-func (t *UpdateTran) fkeyDeleteBlock(ts *meta.Schema, i int, key string) {
+// fkeyDeleteBlock blocks a delete (cascade = CascadeDeletes)
+// or a key change (cascade = CascadeUpdates) of a record
+// that is referenced through a foreign key that does not cascade that change.
+func (t *UpdateTran) fkeyDeleteBlock(ts *meta.Schema, i int, key string, cascade byte) {
 	if key == "" {
 		return
 	}
@@ -483,7 +486,7 @@ func (t *UpdateTran) fkeyDeleteBlock(ts *meta.Schema, i int, key string) {
 			}
 			fkey = encKey
 		}
-		if fkth.Mode == schema.Block &&
+		if fkth.Mode&cascade == 0 &&
 			t.fkeyDeleteExists(fkth, fkey, len(ix.Columns)) {
 			panic("delete blocked by foreign key: " +
 				fkth.Table + " " + str.Join("(,)", fkth.Columns))
@@ -611,7 +614,7 @@ func (t *UpdateTran) update(th *core.Thread, table string, oldoff uint64, newrec
 		newkeys[i] = is.Key(newrec)
 		if oldkeys[i] != newkeys[i] {
 			t.dupOutputBlock(table, i, ix, ti.Indexes[i], newrec, newkeys[i])
-			t.fkeyDeleteBlock(ts, i, oldkeys[i])
+			t.fkeyDeleteBlock(ts, i, oldkeys[i], schema.CascadeUpdates)
 			if block {
 				t.fkeyOutputBlock(ts, i, newrec)
 			}
